@@ -430,6 +430,17 @@ def doc_row(name, doc, what):
         copt(d.get("agg"), q))
 
 
+def raw_doc(name, doc, what):
+    """the documentation list as plain strings (for the harness): what the defop macro prints"""
+    rest = doc[1][1:]
+    d = {}
+    for k, v in zip(rest[0::2], rest[1::2]):
+        d[k[1]] = None if sx.is_sym(v, "None") else v[1]
+    return {"nullary": d.get("nullary"), "unary": d.get("unary"),
+            "binary": d.get("binary", True) is not None, "nary": d.get("n-ary", True) is not None,
+            "pyop": d.get("pyop", name.replace("-", " ")), "agg": d.get("agg")}
+
+
 def opfn(e, c_ops, what):
     if e[0] == "sym" and e[1].startswith("operator.") and e[1][9:] in OPERATOR_FN:
         cls = OPERATOR_FN[e[1][9:]]
@@ -467,7 +478,9 @@ def body_term(e, names, macro_names, c_ops, what):
     if h == "get" and len(a) == 2 and var(a[0]) and a[1] == ("int", 0):
         return "(XGet0 %s)" % q(a[0][1])
     if h == "reduce" and len(a) in (2, 3):
-        return "(XReduce %s %s %s)" % (opfn(a[0], c_ops, what), go(a[1]), copt(go(a[2]) if len(a) == 3 else None))
+        if len(a) == 2:
+            return "(XReduce %s %s)" % (opfn(a[0], c_ops, what), go(a[1]))
+        return "(XReduce3 %s %s %s)" % (opfn(a[0], c_ops, what), go(a[1]), go(a[2]))
     if h == "_foldr" and len(a) == 2:
         return "(XFoldr %s %s)" % (opfn(a[0], c_ops, what), go(a[1]))
     if h == "comp-op" and len(a) == 3:
@@ -537,7 +550,7 @@ def pyops_defs(repo, macro_names, c_ops):
             if name in [d[0] for d in defs]:
                 raise ShapeChanged(what + ": defined twice")
             defs.append((name, params, rest, doc_row(name, f[1][3], what),
-                         body_term(f[1][4], names, macro_names, c_ops, what)))
+                         body_term(f[1][4], names, macro_names, c_ops, what), raw_doc(name, f[1][3], what)))
         elif h == "setv" and len(f[1]) == 3 and sx.is_sym(f[1][1], "__all__"):
             v = f[1][2]
             ok = sx.head(v) == "list" and len(v[1]) == 2 and sx.head(v[1][1]) == "map" and len(v[1][1][1]) == 3 \
@@ -684,7 +697,7 @@ def translate(repo):
     o.append("Definition shadow_path : list string := %s." % clist(q(x) for x in t["shadow_path"]))
     o.append("(* the defop definitions of hy/pyops.hy *)")
     ds = []
-    for (name, params, rest, doc, body) in t["defs"]:
+    for (name, params, rest, doc, body, _raw) in t["defs"]:
         ds.append("{| f_name := %s; f_params := %s; f_rest := %s;\n       f_doc := %s;\n       f_body := %s |}" % (
             q(name), clist(q(p) for p in params), copt(rest, q), doc, body))
     o.append("Definition pyops_defs : list defop :=\n  [ %s ]." % ";\n    ".join(ds))
